@@ -50,6 +50,20 @@ CASES = [
     ("C19", "break", "short frame form used for 256 bytes", "jupyter_kernel.py", "            if len_part <= 255:", "            if len_part <= 256:"),
     ("C19", "break", "signature check returns early", "jupyter_kernel.py", "        check_sig = self.msg_sign(msg_frames)\n        if check_sig != m_signature:", "        return identities, msg\n        check_sig = self.msg_sign(msg_frames)\n        if check_sig != m_signature:"),
     ("C20", "break", "foreign package reinstalled", "requirements.py", "            elif package in pyscript_installed_packages and Version(version_to_install) != Version(\n                pkg_installed_version\n            ):", "            elif Version(version_to_install) != Version(\n                pkg_installed_version\n            ):"),
+    ("C08", "break", "mqtt un-subscribe handle dropped uncalled", "mqtt.py", "            cls.notify_remove[topic]()\n", ""),
+    ("C10", "break", "app_config exposed without a copy", "global_ctx.py", 'self.global_sym_table["pyscript.app_config"] = app_config.copy()', 'self.global_sym_table["pyscript.app_config"] = app_config'),
+    ("C11", "break", "set_global_ctx forgets the scope stack", "eval.py", "        if len(self.sym_table_stack) > 0:\n            self.sym_table_stack[0] = self.global_sym_table\n", ""),
+    ("C13", "break", "name claimed by tasks pyscript did not start", "function.py", "            if curr_task in cls.our_tasks:\n                if name in cls.unique_name2task:", "            if True:\n                if name in cls.unique_name2task:"),
+    ("C14", "break", "task.cancel no longer checks our_tasks", "function.py", "        if task not in cls.our_tasks:\n            raise TypeError(f\"{task} is not a user-started task\")\n        cls.reaper_cancel(task)", "        cls.reaper_cancel(task)"),
+    ("C07", "break", "state_active returns the raw value", "decorators/state.py", "return bool(await self.check_expression_vars(active_vars))", "return await self.check_expression_vars(active_vars)"),
+    ("C06", "break", "wake-up re-check against the adjusted target", "decorators/timing.py", "timeout = (time_next - now).total_seconds()", "timeout = (time_next_adj - now).total_seconds()"),
+    ("C09", "break", "failed decorator set not rolled back", "eval.py", "                    self.log_exception(e)\n                    # release services registered before the decorators failed\n                    func.trigger_stop()\n", "                    self.log_exception(e)\n"),
+    ("C12", "break", "wrong-typed option dropped (service.call)", "function.py", "            if keyword in kwargs and type(kwargs[keyword]) in typ:\n                hass_args[keyword] = kwargs.pop(keyword)\n            elif default:\n                hass_args[keyword] = default\n\n        return await cls.hass_services_async_call(domain, name, kwargs, **hass_args)",
+     "            value = kwargs.pop(keyword, default)\n            if type(value) in typ:\n                hass_args[keyword] = value\n\n        return await cls.hass_services_async_call(domain, name, kwargs, **hass_args)"),
+    ("C15", "break", "start loop over a snapshot", "decorator_abc.py", "        for decorator in self._decorators:\n            _LOGGER.debug(\"Starting decorator: %s\", decorator)", "        for decorator in list(self._decorators):\n            _LOGGER.debug(\"Starting decorator: %s\", decorator)"),
+    ("C17", "break", "single-file candidate uses the dotted name", "global_ctx.py", 'file_paths.append([ctx_name, f"modules/{module_path}.py", None])', 'file_paths.append([ctx_name, f"modules/{module_name}.py", None])'),
+    ("C19", "break", "closed subscriber kept", "jupyter_kernel.py", "            self.iopub_socket.discard(iopub_socket)\n", ""),
+    ("C20", "break", "record edited in place", "requirements.py", "config_entry.data.get(CONF_INSTALLED_PACKAGES, {}).copy()", "config_entry.data.get(CONF_INSTALLED_PACKAGES, {})"),
     # ---- benign (behaviour preserving; must stay silent) -----------------------------------------------------------------
     ("C01", "benign", "operands bound to locals first", "eval.py", "        return (await self.aeval(arg0)) - (await self.aeval(arg1))", "        lhs = await self.aeval(arg0)\n        rhs = await self.aeval(arg1)\n        return lhs - rhs"),
     ("C02", "benign", "negated test with swapped branches", "eval.py", "        return await self.aeval(arg.body) if (await self.aeval(arg.test)) else await self.aeval(arg.orelse)", "        return await self.aeval(arg.orelse) if not (await self.aeval(arg.test)) else await self.aeval(arg.body)"),
@@ -62,6 +76,19 @@ CASES = [
     ("C15", "benign", "early return inside the try/finally", "trigger.py", "                    if time_left <= 0:\n                        ret = {\"trigger_type\": \"timeout\"}\n                        break", "                    if time_left <= 0:\n                        return {\"trigger_type\": \"timeout\"}"),
     ("C16", "benign", "copy written as dict()", "state.py", "            new_attributes = new_attributes.copy()\n            new_attributes.update(kwargs)", "            new_attributes = dict(new_attributes)\n            new_attributes.update(kwargs)"),
     ("C19", "benign", "threshold written as < 256", "jupyter_kernel.py", "            if len_part <= 255:", "            if len_part < 256:"),
+    ("C08", "benign", "handle popped and called", "event.py", "            cls.notify_remove[event_type]()\n            _LOGGER.debug(\"event.notify_del(%s) -> removing event listener\", event_type)\n            del cls.notify[event_type]\n            del cls.notify_remove[event_type]",
+     "            cls.notify_remove.pop(event_type)()\n            _LOGGER.debug(\"event.notify_del(%s) -> removing event listener\", event_type)\n            del cls.notify[event_type]"),
+    ("C10", "benign", "copy written as dict()", "global_ctx.py", 'self.global_sym_table["pyscript.app_config"] = app_config.copy()', 'self.global_sym_table["pyscript.app_config"] = dict(app_config)'),
+    ("C11", "benign", "set_global_ctx branches merged", "eval.py", "        if self.sym_table == self.global_sym_table:\n            self.global_sym_table = global_ctx.get_global_sym_table()\n            self.sym_table = self.global_sym_table\n        else:\n            self.global_sym_table = global_ctx.get_global_sym_table()",
+     "        at_top = self.sym_table == self.global_sym_table\n        self.global_sym_table = global_ctx.get_global_sym_table()\n        if at_top:\n            self.sym_table = self.global_sym_table"),
+    ("C13", "benign", "claim written with setdefault", "function.py", "                if curr_task not in cls.unique_task2name:\n                    cls.unique_task2name[curr_task] = set()\n                cls.unique_task2name[curr_task].add(name)", "                cls.unique_task2name.setdefault(curr_task, set()).add(name)"),
+    ("C14", "benign", "task.cancel guard written positively", "function.py", "        if task not in cls.our_tasks:\n            raise TypeError(f\"{task} is not a user-started task\")\n        cls.reaper_cancel(task)", "        if task in cls.our_tasks:\n            cls.reaper_cancel(task)\n        else:\n            raise TypeError(f\"{task} is not a user-started task\")"),
+    ("C07", "benign", "state_active truth written as not not", "decorators/state.py", "return bool(await self.check_expression_vars(active_vars))", "return not not (await self.check_expression_vars(active_vars))"),
+    ("C15", "benign", "start loop over a snapshot with a status check", "decorator_abc.py", "        for decorator in self._decorators:\n            _LOGGER.debug(\"Starting decorator: %s\", decorator)", "        for decorator in list(self._decorators):\n            if self.status is not DecoratorManagerStatus.RUNNING:\n                break\n            _LOGGER.debug(\"Starting decorator: %s\", decorator)"),
+    ("C19", "benign", "closed subscriber removed with remove()", "jupyter_kernel.py", "            self.iopub_socket.discard(iopub_socket)\n", "            if iopub_socket in self.iopub_socket:\n                self.iopub_socket.remove(iopub_socket)\n"),
+    ("C20", "benign", "record copied with dict()", "requirements.py", "config_entry.data.get(CONF_INSTALLED_PACKAGES, {}).copy()", "dict(config_entry.data.get(CONF_INSTALLED_PACKAGES, {}))"),
+    ("C12", "benign", "split test written with isinstance-free membership swapped", "function.py", "            if keyword in kwargs and type(kwargs[keyword]) in typ:\n                hass_args[keyword] = kwargs.pop(keyword)\n            elif default:\n                hass_args[keyword] = default\n\n        return await cls.hass_services_async_call(domain, name, kwargs, **hass_args)",
+     "            if type(kwargs.get(keyword)) in typ and keyword in kwargs:\n                hass_args[keyword] = kwargs.pop(keyword)\n            elif default:\n                hass_args[keyword] = default\n\n        return await cls.hass_services_async_call(domain, name, kwargs, **hass_args)"),
     ("C20", "benign", "comparison sides swapped", "requirements.py", "                elif Version(current_pinned_version) < Version(new_version):", "                elif Version(new_version) > Version(current_pinned_version):"),
 ]
 
